@@ -279,6 +279,18 @@ class Model:
             self._modfuncs[mod] = f
         return self._modfuncs[mod]
 
+    def owner_family(self, cname):
+        """names of the classes that make up the component <cname>: the class, its bases, and the private helper classes (_Name) of its module - an object
+        the component keeps its state in is part of the component"""
+        c = self.cls(cname)
+        if c is None:
+            return {cname}
+        out = {k.name for k in c.mro()}
+        for k in self.classes.values():
+            if k.mod == c.mod and k.name.startswith('_'):
+                out.add(k.name)
+        return out
+
     def projections(self):
         """Logical fields kept under another name or inside a sub-object: for a property whose getter is `return self.<f1>[.<f2>...]` the stored location IS the
         property.  -> {(f1, ..., fk): (class name, property name)} for chains that one property only projects.  (A class may move `buy_quantity` into
